@@ -384,7 +384,8 @@ class Continuum:
         """
         self.bound_inf = min((next(iter(annotations)).segment.start for annotations in self._annotations.values() if annotations),
                              default=0.0)
-        self.bound_sup = max((next(reversed(annotations)).segment.end for annotations in self._annotations.values() if annotations),
+        # units are sorted by start time first : the last one doesn't necessarily have the rightmost end
+        self.bound_sup = max((unit.segment.end for annotations in self._annotations.values() for unit in annotations),
                              default=0.0)
 
     def add_textgrid(self,
